@@ -1,4 +1,6 @@
 import SJ.Props.C10
 #print axioms SJ.Props.C10.prefix_fails_only_at_end
 #print axioms SJ.Props.C10.c10_prefix_ignored
-#print axioms SJ.Props.C10.c10_prefix_value_partial
+#print axioms SJ.Props.C10.c10_prefix_value_exact
+#print axioms SJ.Props.C10.c10_number_exception
+#print axioms SJ.Props.C10.c10_prefix_value_ap
